@@ -13,9 +13,9 @@ func init() { register("C06", propC06) }
 
 func propC06() *Property {
 	return &Property{
-		ID:      "C06",
-		NeedCG:  true,
-		Decides: "R06.1 in both underlays the replay lookup of the encrypted metadata prefix is made for every received first segment/datagram, before any decryption attempt on that buffer; R06.2 a first segment flagged as a replay never becomes a segment: on the stream no nil-error return is feasible whether or not discovery succeeds, on the packet underlay no segment is returned before the next datagram is read; R06.3 a replay error is handled silently (nothing that may write is called on the failure branch); R06.4 both process-wide caches are created with a positive capacity and a retention interval not shorter than the metadata timestamp acceptance window; R06.5 inventory: every ciphertext read from the stream is looked up, each with the 16-byte prefix of the buffer just read; R06.6 the cache's mutable state is touched only under its mutex (lock discipline of ReplayCache).; R06.7 every demotion of the current generation to previous restarts the expiry clock before the method returns; R06.8 the signature under which an item is remembered is a hash fed with every byte of the item (distinct items that share a prefix never collide by construction)",
+		ID:         "C06",
+		NeedCG:     true,
+		Decides:    "R06.1 in both underlays the replay lookup of the encrypted metadata prefix is made for every received first segment/datagram, before any decryption attempt on that buffer; R06.2 a first segment flagged as a replay never becomes a segment: on the stream no nil-error return is feasible whether or not discovery succeeds, on the packet underlay no segment is returned before the next datagram is read; R06.3 a replay error is handled silently (nothing that may write is called on the failure branch); R06.4 both process-wide caches are created with a positive capacity and a retention interval not shorter than the metadata timestamp acceptance window; R06.5 inventory: every ciphertext read from the stream is looked up, each with the 16-byte prefix of the buffer just read; R06.6 the cache's mutable state is touched only under its mutex (lock discipline of ReplayCache).; R06.7 every demotion of the current generation to previous restarts the expiry clock before the method returns; R06.8 the signature under which an item is remembered is a hash fed with every byte of the item (distinct items that share a prefix never collide by construction)",
 		NotDecided: "the cache's retention / no-false-positive behaviour over operation histories (64-bit FNV collisions, rotation by size and time are value-level), timing.",
 		Rules: []Rule{
 			{ID: "R06.1", Floor: 2, Text: "readOneSegment (stream, packet): IsDuplicate(encryptedMeta[:16], tag) dominates every decrypt/discovery call on that buffer", Run: r06_1},
@@ -36,10 +36,10 @@ func propC06() *Property {
 // its metric bump into a method is a plain refactoring). dupInfo gives the
 // caller-side view of both forms.
 type dupInfo struct {
-	Call  *ssa.Call // the instruction in the analysed function
-	Inner *ssa.Call // the IsDuplicate call itself (== Call for the direct form)
-	Buf   ssa.Value // caller-side buffer expression
-	Key   *ssa.Slice
+	Call            *ssa.Call // the instruction in the analysed function
+	Inner           *ssa.Call // the IsDuplicate call itself (== Call for the direct form)
+	Buf             ssa.Value // caller-side buffer expression
+	Key             *ssa.Slice
 	TagIsSourceAddr bool
 }
 
@@ -609,7 +609,6 @@ func filledFromNetwork(v ssa.Value) bool {
 	}
 	return false
 }
-
 
 // r06_7: the two-generation cache keeps an entry for at least one interval
 // only if every rotation (previous = current) restarts the expiry clock:
